@@ -442,8 +442,55 @@ def job_gauss_wiring(ctx: Ctx, n):
     chk("GaussLegendre", lambda: (lambda g: (g.points, g.weights))(og.GaussLegendre(ExactInt(n))), lambda i: vs[i], lambda i: xs[i])
 
 
+def job_ground_gauss(ctx: Ctx, tier):
+    """float code with the real LAPACK/SciPy node providers (the solver jobs stub them): Gauss-Legendre, both Chebyshev kinds and generalised Laguerre
+    (alpha in {-0.5, 0, 0.7, 2}) integrate weight function x monomial for every degree <= 2n-1, n = 2..12, 20, 35 (Laguerre <= 20).  Ground enumeration."""
+    og, bg = _mods()
+    import warnings, math
+    from scipy.special import gammaln
+    warnings.simplefilter("ignore")
+    ctx.encoded(og.GaussLegendre, og.GaussChebyshev, og.GaussChebyshevType2, og.GaussLaguerre)
+    bad = {}
+    ns = list(range(2, 13)) + [20, 35] + ([50, 80] if tier == "thorough" else [])
+    with unpatched(og, bg):
+        for n in ns:
+            g = og.GaussLegendre(n)
+            for k in range(0, 2 * n):
+                ex = 0.0 if k % 2 else 2.0 / (k + 1)
+                got = float(np.sum(g.weights * g.points ** k))
+                if abs(got - ex) > 2e-12:
+                    bad[f"GaussLegendre({n}) x^{k}"] = dict(got=got, exact=ex)
+                    break
+            # weight-divided rules: integrate(w(x) x^k) must equal the weighted moment
+            for cls, wfun, mom in ((og.GaussChebyshev, lambda x: 1 / np.sqrt(1 - x * x), lambda k: 0.0 if k % 2 else math.pi * math.comb(k, k // 2) / 2 ** k),
+                                   (og.GaussChebyshevType2, lambda x: np.sqrt(1 - x * x), lambda k: 0.0 if k % 2 else math.pi / 2 ** (k + 1) * math.comb(k, k // 2) / (k // 2 + 1))):
+                g = cls(n)
+                for k in range(0, 2 * n):
+                    got = float(np.sum(g.weights * wfun(g.points) * g.points ** k))
+                    if abs(got - mom(k)) > 5e-12:
+                        bad[f"{cls.__name__}({n}) w(x) x^{k}"] = dict(got=got, exact=mom(k))
+                        break
+                if bool(np.any(np.diff(g.points) <= 0)) or g.points[0] < -1 or g.points[-1] > 1 or len(g.points) != n:
+                    bad[f"{cls.__name__}({n}) nodes"] = "not n ascending nodes inside [-1, 1]"
+            if n <= 20:
+                for alpha in (-0.5, 0.0, 0.7, 2.0):
+                    g = og.GaussLaguerre(n, alpha)
+                    for k in range(0, 2 * n):
+                        ex = math.exp(gammaln(alpha + k + 1))
+                        with np.errstate(all="ignore"):
+                            got = float(np.sum(g.weights * g.points ** alpha * np.exp(-g.points) * g.points ** k))
+                        if not abs(got - ex) <= 1e-9 * ex:
+                            bad[f"GaussLaguerre({n}, alpha={alpha}) x^alpha e^-x x^{k}"] = dict(got=got, exact=ex)
+                            break
+                    if bool(np.any(np.diff(g.points) <= 0)) or g.points[0] < 0 or len(g.points) != n:
+                        bad[f"GaussLaguerre({n}, alpha={alpha}) nodes"] = "not n ascending nodes inside [0, inf)"
+    (ctx.ok if not bad else ctx.fail)(f"float code, real node providers: Gauss-Legendre / Chebyshev 1, 2 / generalised Laguerre exact for every degree <= 2n-1 (n in {ns})", detail=str(bad)[:400],
+                                      key="gauss:float-exactness", how="ground enumeration (not a solver obligation)", replay=(lambda m: (True, dict(list(bad.items())[:5]))), **({} if not bad else dict(model={})))
+    ctx.twins_sat += 1
+
+
 def jobs(tier):
-    js = []
+    js = [Job("ground/gauss-float", job_ground_gauss, tier)]
     ns = range(2, 10) if tier == "quick" else range(2, 21)
     for rule in ("ClenshawCurtis", "FejerFirst", "FejerSecond", "Trapezoidal", "MidPoint"):
         for n in ns:
